@@ -483,6 +483,8 @@ func runSched(seed int64, mal bool) *JCase {
 			}
 		}
 	}
+	fin := JOp{T: "snapshot"}
+	c.Steps = append(c.Steps, JStep{fin, x.do(fin)})
 	oracleSched(c)
 	return c
 }
@@ -516,6 +518,70 @@ func runSchedBatch(rng *rand.Rand, n int, mal bool, emit func(*JCase)) {
 	for _, c := range res {
 		emit(c)
 	}
+}
+
+// ---------------------------------------------------------------- shrinking
+
+func oracleKind(ops []JOp, mode string) string {
+	x := newSchedExec()
+	c := &JCase{Mode: mode}
+	for _, op := range ops {
+		if (op.T == "write" || op.T == "writes" || op.T == "delete") && x.queued() >= 60 {
+			return "" // would block on publishCh
+		}
+		c.Steps = append(c.Steps, JStep{op, x.do(op)})
+	}
+	oracleSched(c)
+	if c.Sig == nil {
+		return ""
+	}
+	return c.Sig["kind"] + "|" + c.Sig["class"]
+}
+
+// doShrink minimises the schedule of a failing case (delta debugging on the op list, re-running
+// the real store each time) and prints the shrunk case.
+func doShrink(path string) int {
+	b, err := os.ReadFile(path)
+	if err != nil {
+		fmt.Println(err)
+		return 2
+	}
+	var c JCase
+	if err := json.Unmarshal(b, &c); err != nil {
+		fmt.Println(err)
+		return 2
+	}
+	ops := make([]JOp, len(c.Steps))
+	for i, s := range c.Steps {
+		ops[i] = s.Op
+	}
+	want := oracleKind(ops, c.Mode)
+	if want == "" {
+		// not reproducible sequentially: keep as is
+		os.Stdout.Write(b)
+		return 0
+	}
+	for chunk := len(ops) / 2; chunk >= 1; {
+		removed := false
+		for i := 0; i+chunk <= len(ops); {
+			cand := append(append([]JOp{}, ops[:i]...), ops[i+chunk:]...)
+			if oracleKind(cand, c.Mode) == want {
+				ops = cand
+				removed = true
+			} else {
+				i += chunk
+			}
+		}
+		if !removed || chunk > len(ops) {
+			chunk /= 2
+		}
+	}
+	out := runOps(c.Mode, ops)
+	out.Seed = c.Seed
+	out.Note = "shrunk from " + strconv.Itoa(len(c.Steps)) + " steps"
+	ob, _ := json.Marshal(out)
+	os.Stdout.Write(ob)
+	return 0
 }
 
 // ---------------------------------------------------------------- replay
